@@ -1451,3 +1451,30 @@ where
         active + closed
     }
 }
+
+#[cfg(pearl_verif)]
+impl<K> Storage<K>
+where
+    for<'a> K: Key<'a> + 'static,
+{
+    /// Verification probe: state of every blob (closed blobs in container order, then the active one)
+    pub async fn verif_blob_states(&self) -> Vec<crate::verif::BlobState> {
+        let safe = self.inner.safe.read().await;
+        let mut res = Vec::new();
+        {
+            let blobs = safe.blobs.read().await;
+            for blob in blobs.iter() {
+                res.push(blob.verif_state(false));
+            }
+        }
+        if let Some(ablob) = safe.active_blob.as_ref() {
+            res.push(ablob.read().await.verif_state(true));
+        }
+        res
+    }
+
+    /// Verification probe: is the background worker task still running
+    pub fn verif_worker_alive(&self) -> bool {
+        self.observer.verif_worker_alive()
+    }
+}
